@@ -39,6 +39,9 @@ var c05Files = ref.Files{
 	"dright":        "r1\n##!> include plain\n",
 	"diamond":       "##!> include dleft\n##!=>\n##!> include dright\n",
 	"twice":         "##!> include plain\n##!=>\n##!> include plain\n",
+	"trailing":      "foo  \nselect \n",    // white space at the end of an entry is part of the entry, also on the last line
+	"trailingnonl":  "\n\nfoo\nselect\t ",  // ... and without a final newline, after leading blank lines
+	"trailingblank": "foo \nbar\n\n  \n\n", // blank lines at the end of the file
 }
 
 func c05Tree() core.Tree {
@@ -64,11 +67,15 @@ func c05ModelFiles() ref.Files {
 	return f
 }
 
+// c05GenLines: line kinds of the generated include files (all files of <= n lines are explored).
+var c05GenLines = []string{"foo", "ba[rz]", "##!^ p+", "##!$ s?", "##!> define d x+", "{{d}}y", "##! c", "", "  ind", "##!> include plain", "##!=>", "##!> assemble", "##!<", "{{n}}", "sel ", "\tx\t"}
+
 type c05Case struct {
 	File   string `json:"file"`
 	Pos    int    `json:"position"`
 	Ext    bool   `json:"with_extension"`
 	Header int    `json:"includer_header"`
+	Text   string `json:"generated_file_text,omitempty"` // File == "gen": the include file is written for the case
 }
 
 var c05Headers = [][]string{
@@ -216,10 +223,28 @@ func C05(r *core.Run) {
 		for pos := 0; pos < 8; pos++ {
 			for _, ext := range []bool{false, true} {
 				for h := range c05Headers {
-					cases = append(cases, c05Case{n, pos, ext, h})
+					cases = append(cases, c05Case{File: n, Pos: pos, Ext: ext, Header: h})
 				}
 			}
 		}
+	}
+	genStart := len(cases)
+	enumSeq(len(c05GenLines), r.Pick(2, 3), func(_ int, seq []int) {
+		var sb strings.Builder
+		for _, i := range seq {
+			sb.WriteString(c05GenLines[i] + "\n")
+		}
+		for pos := 0; pos < 8; pos++ {
+			for h := range c05Headers {
+				if len(seq) == 3 && (pos == 1 || pos == 2 || h == 2) {
+					continue // three-line files: positions first/alone/in blocks/twice, headers none and definitions+flag
+				}
+				cases = append(cases, c05Case{Text: sb.String(), File: "gen", Pos: pos, Header: h})
+			}
+		}
+	})
+	if r.Degraded() {
+		cases = cases[:genStart]
 	}
 	bound := r.Pick(1, 2)
 	type in struct {
@@ -238,6 +263,12 @@ func C05(r *core.Run) {
 				continue
 			}
 			r.Inflight(fmt.Sprintf("%+v", c))
+			if c.File == "gen" {
+				files["gen"] = c.Text
+				if err := os.WriteFile(filepath.Join(wd, "regex-assembly/include/gen.ra"), []byte(c.Text), 0o644); err != nil {
+					panic(err)
+				}
+			}
 			inl, err := ref.Inline(files, c.File, 0)
 			out.Cases++
 			if err == ref.ErrFlagsInInclude {
@@ -332,6 +363,9 @@ func C05(r *core.Run) {
 			continue
 		}
 		key := fmt.Sprintf("file=%s position=%d header=%d", f.Case.File, f.Case.Pos, f.Case.Header)
+		if f.Case.File == "gen" {
+			key = fmt.Sprintf("file=%q position=%d header=%d", f.Case.Text, f.Case.Pos, f.Case.Header)
+		}
 		if seen[f.Clause+key] {
 			continue
 		}
@@ -350,8 +384,8 @@ func C05(r *core.Run) {
 	r.Cov["distinct_nontrivial"] = tot.Cases
 	r.Cov["traces_validated_against_impl"] = validated
 	r.Cov["exhaustive"] = tot.Inconclusive == 0 && len(deaths) == 0
-	r.Cov["bound"] = map[string]any{"files": len(names), "positions": 8, "spellings": 2, "includer_headers": len(c05Headers), "schedule_deviations": bound}
-	r.Cov["rule"] = "full cross product files x positions x name spelling x includer header; for each case the including program A and the hand-inlined program B (reference model ref.Inline) are both generated by the real code under every map-iteration schedule with <= bound deviations and their outcome sets must be pairwise language-equal (product-automaton search) or fail together"
+	r.Cov["bound"] = map[string]any{"files": len(names), "generated_files": fmt.Sprintf("all files of <= %d lines over %d line kinds", r.Pick(2, 3), len(c05GenLines)), "positions": 8, "spellings": 2, "includer_headers": len(c05Headers), "schedule_deviations": bound}
+	r.Cov["rule"] = "full cross product files (a hand-written menu plus every generated include file up to the line bound) x positions x name spelling x includer header; for each case the including program A and the hand-inlined program B (reference model ref.Inline) are both generated by the real code under every map-iteration schedule with <= bound deviations and their outcome sets must be pairwise language-equal (product-automaton search) or fail together"
 	r.Cov["samples"] = []any{cases[0], cases[len(cases)/2], cases[len(cases)-1]}
 	r.Assume = append(r.Assume, "differential oracle: program B contains no include, so the comparison isolates the include mechanism; B's own compilation is C01's business")
 }
